@@ -529,6 +529,13 @@ def correspondence(ctx, rule):
             kind, payload = poll_shape(o.value)
             if kind != "Ok":
                 continue
+            # progress: a piece that is not a chunk of the current part (a part header or the trailer) is emitted once:
+            # the position must move on, otherwise the next poll emits the same piece again
+            if not (isinstance(payload, tuple) and payload[0] == "payload"):
+                stt = final_read(ctx, o, SELF, (("f", roles["state"]),))
+                if stt == pack(H, const(p)):
+                    ctx.violation(rule, rule + "|no-progress|p=%d" % p, "after emitting %s the position is unchanged (%s): the next poll emits the same piece again" %
+                                  ("a part header" if "elem" in repr(payload)[:300] else "the trailer", short(stt, 30)), where=_last_where(o))
             src = fmt_term(payload)
             if isinstance(payload, tuple) and payload[0] == "call" and (payload[1].endswith("::into") or payload[1].endswith("::from")):
                 x = payload[2][0]
